@@ -22,6 +22,7 @@ EXPLANATION = (
     "`index != self._focus` before the store, and the empty list forces _focus = 0; (5) slice-triple coherence: every range built from a slice's (start, stop, step) is bounded by its stop; (6b) the normalisation block computes the new triple from the old one (no component read after being overwritten); (7) single indices are converted with slice(i, i + 1 or None), "
     "the form that is correct for i == -1; (6) normalisation: arithmetic that assumes an ascending, well-ordered "
     "range (min(x, stop), stop - start, x < stop) is reachable only after negative steps and reversed bounds were normalised."
+    ' Round 4: (9) _focus is written only by __init__ and the focus setter, the one place that fires the focus-changed callback.'
 )
 NOT_DECIDED = "The index arithmetic of _adjust_focus_on_contents_modified (which position the focus ends up at), equality with a built-in list for all operation sequences, error parity for every bad index."
 ASSUMPTIONS = ["The list of mutators is derived from the `list` type of the analysing interpreter (CPython 3.12)."]
